@@ -12,7 +12,7 @@ from ..fsm_model import FsmModel, cell_context, summarize_outcome
 from ..oracles import ps3_8
 from ..provider_model import (ProviderModel, appended_event, cond_says_recv_empty,
                               cond_says_socket_present, parse_cond, PRODUCERS)
-from ..srcmodel import AnalysisError, ClassRef, NotConst
+from ..srcmodel import AnalysisError, ClassRef, NotConst, norm
 from ..sym import SymClient, empty_state
 from .c04 import cell_key
 
@@ -88,6 +88,7 @@ def check_producers(repo, model: FsmModel, pm: ProviderModel, rep):
     mod = pm.mod
     produced = set()
     sites = {}
+    nonneg = timer_limit_nonneg(repo)
     # every physical append site in the class
     all_sites = {}
     for mname, f in pm.cls.methods.items():
@@ -159,6 +160,8 @@ def check_producers(repo, model: FsmModel, pm: ProviderModel, rep):
                     elif s.trail.index(unsets[0]) < s.trail.index(closes[0]):
                         d['problems'].add('dul_socket released before close()')
                 elif n == 18:
+                    if nonneg and any(zero_exceeds_limit(c_, 'self.timer') for c_ in conds):
+                        continue       # 0 > limit: not a path (limits are constants >= 0)
                     ok = any(_is_timer_expired(c_) for c_ in conds) or all(expiry_facts(conds, 'self.timer'))
                     if not ok:
                         d['problems'].add('EVT_18 appended without a positive expiry test of the ARTIM timer')
@@ -212,6 +215,51 @@ def _is_state_test(c, state, positive):
     return False
 
 
+def timer_limit_nonneg(repo) -> bool:
+    """the limit of every Timer of the package is a non-negative constant: ``_max_seconds`` is stored only by the constructor,
+    from its parameter, and every ``Timer(..)`` in the package passes a constant >= 0.  Under that, a test ``0 > limit`` (an
+    elapsed time of 0 for a timer that is not running, compared with the limit) never holds."""
+    tc = repo.cls('dulprovider', 'Timer')
+    init = tc.find_method('__init__')
+    if init is None or len(init.params) != 2:
+        return False
+    for c in repo.all_classes():
+        for f in list(c.methods.values()) + list(c.setters.values()):
+            for n in ast.walk(f.node):
+                if isinstance(n, ast.Attribute) and n.attr == '_max_seconds' and isinstance(n.ctx, (ast.Store, ast.Del)):
+                    if f.key != init.key:
+                        return False
+    stores = [n for n in ast.walk(init.node) if isinstance(n, ast.Assign) and any(
+        isinstance(t, ast.Attribute) and t.attr == '_max_seconds' for t in n.targets)]
+    if len(stores) != 1 or not (isinstance(stores[0].value, ast.Name) and stores[0].value.id == init.params[1]):
+        return False
+    n_sites = 0
+    for f in repo.all_functions():
+        for n in ast.walk(f.node):
+            if isinstance(n, ast.Call) and norm(n.func).split('.')[-1] == 'Timer':
+                n_sites += 1
+                a = n.args[0] if n.args else next((k.value for k in n.keywords if k.arg == init.params[1]), None)
+                v = repo.try_fold(a, f.module, f.cls) if a is not None else None
+                if not (isinstance(v, (int, float)) and not isinstance(v, bool) and v >= 0):
+                    return False
+    return n_sites > 0
+
+
+def zero_exceeds_limit(c: str, obj: str) -> bool:
+    """the path condition ``0 > obj._max_seconds`` (taken positively): infeasible under timer_limit_nonneg"""
+    pol, e = parse_cond(c)
+    if e is None or not (isinstance(e, ast.Compare) and len(e.ops) == 1):
+        return False
+    l, r, op = e.left, e.comparators[0], e.ops[0]
+    lim = '%s._max_seconds' % obj
+    zero = lambda x: isinstance(x, ast.Constant) and type(x.value) in (int, float) and x.value == 0
+    if zero(l) and norm(r) == lim:
+        return (isinstance(op, ast.Gt) and pol) or (isinstance(op, ast.LtE) and not pol)
+    if zero(r) and norm(l) == lim:
+        return (isinstance(op, ast.Lt) and pol) or (isinstance(op, ast.GtE) and not pol)
+    return False
+
+
 def expiry_facts(conds, obj):
     """(started, elapsed): does the path condition say that the start time of timer ``obj`` is set, and that the time since
     then exceeds its limit?"""
@@ -246,7 +294,7 @@ def _is_timer_expired(c):
     return False
 
 
-def check_timer(repo, pm, rep):
+def check_timer(repo, pm, rep, rule='C05.G4'):
     """G4: Timer.check() is False iff started and elapsed beyond the limit."""
     tc = repo.cls('dulprovider', 'Timer')
     hier = pm.hier
@@ -258,8 +306,11 @@ def check_timer(repo, pm, rep):
     finals = c.final_states(c.run(empty_state()))
     problems = []
     n_false = 0
+    nonneg = timer_limit_nonneg(repo)
     for s, how in finals:
         ret = s.ret
+        if nonneg and any(zero_exceeds_limit(c_, 'self') for c_ in s.conds):
+            continue
         started, elapsed = expiry_facts(s.conds, 'self')
         if ret == 'False':
             n_false += 1
@@ -272,7 +323,7 @@ def check_timer(repo, pm, rep):
             problems.append('check() returns %s' % ret)
     if n_false == 0:
         problems.append('check() never reports expiry')
-    rep.check(not problems, 'C05.G4', 'dulprovider:Timer.check', f.loc(),
+    rep.check(not problems, rule, 'dulprovider:Timer.check', f.loc(),
               'False iff started and elapsed > limit (%d paths)' % len(finals), '; '.join(problems))
     # start/stop/restart
     def stores(name):
@@ -286,13 +337,13 @@ def check_timer(repo, pm, rep):
         return cl.final_states(cl.run(empty_state())), fn
     fs, fn = stores('start')
     ok = all([e.args[0] for e in s.trail if e.kind == 'store'][-1:] == ['time.time()'] for s, _ in fs)
-    rep.check(ok, 'C05.G4', 'dulprovider:Timer.start', fn.loc(), 'start records the current time', 'start() does not record time.time()')
+    rep.check(ok, rule, 'dulprovider:Timer.start', fn.loc(), 'start records the current time', 'start() does not record time.time()')
     fs, fn = stores('stop')
     ok = all([e.args[0] for e in s.trail if e.kind == 'store'][-1:] == ['None'] for s, _ in fs)
-    rep.check(ok, 'C05.G4', 'dulprovider:Timer.stop', fn.loc(), 'stop clears the start time', 'stop() does not clear the start time')
+    rep.check(ok, rule, 'dulprovider:Timer.stop', fn.loc(), 'stop clears the start time', 'stop() does not clear the start time')
     fs, fn = stores('restart')
     ok = all([e.args[0] for e in s.trail if e.kind == 'store'][-1:] == ['time.time()'] for s, _ in fs)
-    rep.check(ok, 'C05.G4', 'dulprovider:Timer.restart', fn.loc(), 'restart leaves the timer running from now',
+    rep.check(ok, rule, 'dulprovider:Timer.restart', fn.loc(), 'restart leaves the timer running from now',
               'restart() does not leave the timer started at the current time')
 
 
